@@ -170,7 +170,7 @@ def native_run(k, inputs, outdir, tag='replay'):
     os.makedirs(outdir, exist_ok=True)
     cpp = os.path.join(outdir, tag + '.cpp'); exe = os.path.join(outdir, tag + '.bin')
     open(cpp, 'w').write(src)
-    flags = [f for f in gen.CXXFLAGS if not f.startswith('-I')] + ['-I' + gen.REPO + '/include']
+    flags = [f for f in gen.flags_for(k.arch) if not f.startswith('-I')] + ['-I' + gen.REPO + '/include']
     if k.arch.startswith('emu'): flags.append('-DXSIMD_WITH_EMULATED=1')
     runsh = os.path.join(outdir, 'run.sh')
     open(runsh, 'w').write('#!/bin/sh\n# rebuilds the wrapper from the current /repo headers and prints the native result bytes\ncd "$(dirname "$0")" && %s %s %s.cpp -o %s.bin && ./%s.bin\n' % (gen.CLANG, ' '.join(flags), tag, tag, tag))
